@@ -47,6 +47,10 @@ class Check:
         self.known = {f["key"]: f for f in kf.get("findings", []) if f.get("property") == pid}
         self.samples = []
         self.notes = []
+        try:
+            os.remove(os.path.join(REPLAY_DIR, "%s_all_violation_keys.txt" % pid))
+        except OSError:
+            pass
 
     # ---- verdict bookkeeping
     def fail(self, key, what, replay):
